@@ -801,7 +801,21 @@ fn gen_query(rng: &mut Rng, i: usize, weights: &[u64; 15]) -> String {
     let m = 2 + rng.below(17);
     match rng.weighted(weights) {
         // plain numeric expressions with unique values
-        0 => match rng.below(10) {
+        0 => match rng.below(12) {
+            // results whose exact form is far beyond what is displayed: `ans`
+            // must still be the exact value
+            10 => match rng.below(5) {
+                0 => format!("2^{} + {}", 280 + m, n),
+                1 => format!("1/3^{}", 190 + m),
+                2 => format!("googol + {}", n),
+                3 => format!("(1/7)^{} m", 95 + m),
+                _ => format!("{} * 10^-{}", n, 85 + m),
+            },
+            11 => match rng.below(3) {
+                0 => format!("ans - 2^{}", 280 + m),
+                1 => "ans mod 10".to_string(),
+                _ => format!("ans * 3^{}", 190 + m),
+            },
             0 => format!("{}", n),
             1 => format!("{} + {}", n, m),
             2 => format!("{} m", n),
